@@ -25,6 +25,7 @@ type SeqProfile struct {
 	PFailIns  float64 // an insert callback fails
 	PRollback float64 // a transaction ends in an error
 	PSchema   float64 // a step is a schema change
+	PSnap     float64 // a step is snapshot -> restore into a fresh collection -> continue there
 	PObserve  float64 // the body looks at the collection from a second transaction (dump) at some point
 	SortFirst bool    // create the sorted indexes before any data
 	PDelete   float64
@@ -247,6 +248,35 @@ func (g *seqGen) keyStep(x *Tx, r float64) {
 	}
 }
 
+// snapCycle snapshots the primary, restores the snapshot into a fresh collection with the same schema
+// (another capacity), compares, and continues the history on the restored collection.
+func (g *seqGen) snapCycle(n int) {
+	w := g.w
+	name := fmt.Sprintf("f%d", n)
+	if g.P.Snapshot("m", name, nil) != nil {
+		return
+	}
+	caps := []int{1, 63, 64, 1024, 16384, 20000}
+	S := w.NewColl(fmt.Sprintf("S%d", n), caps[g.rnd.Intn(len(caps))], g.p.Transport, 0)
+	S.Keys = g.P.Keys
+	for _, d := range g.P.Cols {
+		S.CreateColumn(d)
+	}
+	for _, x := range g.P.Idx {
+		S.CreateIndex(x)
+	}
+	for _, x := range g.P.Sorts {
+		S.CreateSort(x[0], x[1])
+	}
+	for _, x := range g.P.Trigs {
+		S.CreateTrigger(x[0], x[1])
+	}
+	S.Restore("rs", name, -1)
+	g.P.Dump(1)
+	g.P = S
+	g.dump()
+}
+
 // RunSeq runs one random sequential history and returns its events.
 func RunSeq(seed int64, p SeqProfile) []Ev {
 	g := &seqGen{p: p, rnd: rand.New(rand.NewSource(seed)), w: NewWorld(), affine: map[string]int{}}
@@ -280,7 +310,13 @@ func RunSeq(seed int64, p SeqProfile) []Ev {
 	}
 	g.prologue()
 	g.dump()
+	cycles := 0
 	for step := 0; step < p.Steps; step++ {
+		if g.rnd.Float64() < p.PSnap && cycles < 3 {
+			cycles++
+			g.snapCycle(cycles)
+			continue
+		}
 		if g.rnd.Float64() < p.PSchema {
 			g.schemaStep()
 			g.dump()
